@@ -21,7 +21,8 @@ func TestMain(m *testing.M) {
 	lib.Extra("rule", "rapid state machine over a real Router: {AddHandler (before / after Run; own scripted subscriber; publisher distinct, shared or none), Run, RunHandlers xN sequentially or concurrently, wait Started + probe, Stop(handler), cancel the Run context, Close}, 1..5 handlers, in every order the API permits; "+
 		"model: Subscribe calls per handler (<=1 always, =1 once a RunHandlers started after its AddHandler), Running() closed only when every handler added before Run holds its subscription, probes handled by started handlers, Stop/Stopped usable after Started, Stop ends that handler only, Run returns nil after the last handler ended / ctx cancel / Close, second Run fails. "+
 		"Plus a forced schedule: the goroutine inside RunHandlers is parked right after a handler's Started() closed while the harness calls Stop() and Stopped(). "+
-		"Non-trivial: the program contains a Stop or a repeated/concurrent RunHandlers (state machine) / the park was achieved (forced). Race detector on.")
+		"Non-trivial: the program contains a Stop or a repeated/concurrent RunHandlers (state machine) / the park was achieved (forced). Race detector on."+
+		" The machine also makes AddHandler calls the router refuses (name taken; the panic is recovered): they must leave no trace.")
 	lib.Extra("assumptions", []string{
 		"handlers are not added concurrently with the router shutting down; handlers sharing the stopped handler's publisher are not probed after the Stop",
 		"10 s liveness bounds",
